@@ -4,7 +4,7 @@ C20 — executable model of `Grid.compute_geometry` (porepy/grids/grid.py: `_com
 `compute_tangent`, `compute_normal` (porepy/geometry/map_geometry.py).  Core Lean only.
 
 Numbers are rationals, points and vectors live in ℚ³.  Wherever the code takes a square root
-(`np.sqrt`, `np.linalg.norm`) the model applies an abstract function `sq : Rat → Rat`, which is a
+(`np.sqrt`, `np.linalg.norm`) the model applies an abstract function `sq : K → K`, which is a
 parameter of every definition: the theorems hold for every `sq`, the driver instantiates it with a
 rational square root that is accurate to 2⁻⁶⁴ (`asqrt`).
 
@@ -15,189 +15,194 @@ branches on.
 -/
 namespace PorepyVerif.C20
 
+/- the scalars: any type with the field operations, casts from ℕ / ℤ (numerals are written as casts) and a
+   decidable order; `Rat` for the driver, any linearly ordered field (ℚ, ℝ) in the theorems -/
+variable {K : Type} [Add K] [Sub K] [Mul K] [Neg K] [Div K] [NatCast K] [IntCast K]
+  [LT K] [LE K] [DecidableLT K] [DecidableLE K] [DecidableEq K]
+
 /-! ### vectors, matrices, rigid motions -/
 
-structure V3 where
-  x : Rat
-  y : Rat
-  z : Rat
+structure V3 (K : Type) where
+  x : K
+  y : K
+  z : K
 deriving DecidableEq, Repr, Inhabited
 
 namespace V3
-def zero : V3 := ⟨0, 0, 0⟩
-def add (a b : V3) : V3 := ⟨a.x + b.x, a.y + b.y, a.z + b.z⟩
-def sub (a b : V3) : V3 := ⟨a.x - b.x, a.y - b.y, a.z - b.z⟩
-def neg (a : V3) : V3 := ⟨-a.x, -a.y, -a.z⟩
-def smul (c : Rat) (a : V3) : V3 := ⟨c * a.x, c * a.y, c * a.z⟩
-def dot (a b : V3) : Rat := a.x * b.x + a.y * b.y + a.z * b.z
-def cross (a b : V3) : V3 :=
+def zero : V3 K := ⟨((0 : Nat) : K), ((0 : Nat) : K), ((0 : Nat) : K)⟩
+def add (a b : V3 K) : V3 K := ⟨a.x + b.x, a.y + b.y, a.z + b.z⟩
+def sub (a b : V3 K) : V3 K := ⟨a.x - b.x, a.y - b.y, a.z - b.z⟩
+def neg (a : V3 K) : V3 K := ⟨-a.x, -a.y, -a.z⟩
+def smul (c : K) (a : V3 K) : V3 K := ⟨c * a.x, c * a.y, c * a.z⟩
+def dot (a b : V3 K) : K := a.x * b.x + a.y * b.y + a.z * b.z
+def cross (a b : V3 K) : V3 K :=
   ⟨a.y * b.z - a.z * b.y, a.z * b.x - a.x * b.z, a.x * b.y - a.y * b.x⟩
-def norm2 (a : V3) : Rat := dot a a
+def norm2 (a : V3 K) : K := dot a a
 end V3
 open V3
 
 /-- 3×3 matrix given by its rows. -/
-structure Mat3 where
-  r1 : V3
-  r2 : V3
-  r3 : V3
+structure Mat3 (K : Type) where
+  r1 : V3 K
+  r2 : V3 K
+  r3 : V3 K
 deriving DecidableEq, Repr
 
-def Mat3.mulVec (R : Mat3) (v : V3) : V3 := ⟨dot R.r1 v, dot R.r2 v, dot R.r3 v⟩
-def Mat3.c1 (R : Mat3) : V3 := ⟨R.r1.x, R.r2.x, R.r3.x⟩
-def Mat3.c2 (R : Mat3) : V3 := ⟨R.r1.y, R.r2.y, R.r3.y⟩
-def Mat3.c3 (R : Mat3) : V3 := ⟨R.r1.z, R.r2.z, R.r3.z⟩
-def Mat3.det (R : Mat3) : Rat := dot R.r1 (cross R.r2 R.r3)
+def Mat3.mulVec (R : Mat3 K) (v : V3 K) : V3 K := ⟨dot R.r1 v, dot R.r2 v, dot R.r3 v⟩
+def Mat3.c1 (R : Mat3 K) : V3 K := ⟨R.r1.x, R.r2.x, R.r3.x⟩
+def Mat3.c2 (R : Mat3 K) : V3 K := ⟨R.r1.y, R.r2.y, R.r3.y⟩
+def Mat3.c3 (R : Mat3 K) : V3 K := ⟨R.r1.z, R.r2.z, R.r3.z⟩
+def Mat3.det (R : Mat3 K) : K := dot R.r1 (cross R.r2 R.r3)
 
 /-- proper rotation: `RᵀR = 1` (orthonormal columns) and `det R = 1`. -/
-def Mat3.IsRot (R : Mat3) : Prop :=
-  dot R.c1 R.c1 = 1 ∧ dot R.c2 R.c2 = 1 ∧ dot R.c3 R.c3 = 1 ∧
-  dot R.c1 R.c2 = 0 ∧ dot R.c1 R.c3 = 0 ∧ dot R.c2 R.c3 = 0 ∧ R.det = 1
+def Mat3.IsRot (R : Mat3 K) : Prop :=
+  dot R.c1 R.c1 = ((1 : Nat) : K) ∧ dot R.c2 R.c2 = ((1 : Nat) : K) ∧ dot R.c3 R.c3 = ((1 : Nat) : K) ∧
+  dot R.c1 R.c2 = ((0 : Nat) : K) ∧ dot R.c1 R.c3 = ((0 : Nat) : K) ∧ dot R.c2 R.c3 = ((0 : Nat) : K) ∧ R.det = ((1 : Nat) : K)
 
-instance (R : Mat3) : Decidable R.IsRot := by unfold Mat3.IsRot; infer_instance
+instance (R : Mat3 K) : Decidable R.IsRot := by unfold Mat3.IsRot; infer_instance
 
 /-- rigid motion `x ↦ R x + t`. -/
-structure Motion where
-  R : Mat3
-  t : V3
+structure Motion (K : Type) where
+  R : Mat3 K
+  t : V3 K
 
 /-- action on vectors (differences of points): rotation only -/
-def rot (M : Motion) (v : V3) : V3 := M.R.mulVec v
+def rot (M : Motion K) (v : V3 K) : V3 K := M.R.mulVec v
 /-- action on points -/
-def act (M : Motion) (p : V3) : V3 := add (rot M p) M.t
+def act (M : Motion K) (p : V3 K) : V3 K := add (rot M p) M.t
 
 /-- the rotation matrix of a (non-zero, not necessarily unit) quaternion `w + x i + y j + z k`: every rational
     proper rotation is of this form; the harness draws its motions from integer quaternions -/
-def quatMat (w x y z : Rat) : Mat3 :=
+def quatMat (w x y z : K) : Mat3 K :=
   let n := w * w + x * x + y * y + z * z
-  ⟨⟨(w * w + x * x - y * y - z * z) / n, 2 * (x * y - w * z) / n, 2 * (x * z + w * y) / n⟩,
-   ⟨2 * (x * y + w * z) / n, (w * w - x * x + y * y - z * z) / n, 2 * (y * z - w * x) / n⟩,
-   ⟨2 * (x * z - w * y) / n, 2 * (y * z + w * x) / n, (w * w - x * x - y * y + z * z) / n⟩⟩
+  ⟨⟨(w * w + x * x - y * y - z * z) / n, ((2 : Nat) : K) * (x * y - w * z) / n, ((2 : Nat) : K) * (x * z + w * y) / n⟩,
+   ⟨((2 : Nat) : K) * (x * y + w * z) / n, (w * w - x * x + y * y - z * z) / n, ((2 : Nat) : K) * (y * z - w * x) / n⟩,
+   ⟨((2 : Nat) : K) * (x * z - w * y) / n, ((2 : Nat) : K) * (y * z + w * x) / n, (w * w - x * x - y * y + z * z) / n⟩⟩
 
 /-! ### sums, averages, argmax -/
 
-def vsum : List V3 → V3
+def vsum : List (V3 K) → V3 K
   | [] => zero
   | a :: l => add a (vsum l)
 
-def rsum : List Rat → Rat
-  | [] => 0
+def rsum : List K → K
+  | [] => ((0 : Nat) : K)
   | a :: l => a + rsum l
 
 /-- `pts.mean(axis=1)` -/
-def mean (l : List V3) : V3 := smul (1 / (l.length : Rat)) (vsum l)
+def mean (l : List (V3 K)) : V3 K := smul (((1 : Nat) : K) / (l.length : K)) (vsum l)
 
 /-- weighted average `Σ wᵢ cᵢ / Σ wᵢ` (bincount of weighted centroids divided by bincount of weights) -/
-def wavg (l : List (Rat × V3)) : V3 :=
-  smul (1 / rsum (l.map (·.1))) (vsum (l.map fun p => smul p.1 p.2))
+def wavg (l : List (K × V3 K)) : V3 K :=
+  smul (((1 : Nat) : K) / rsum (l.map (·.1))) (vsum (l.map fun p => smul p.1 p.2))
 
-def argmaxAux (best : Rat) (bi : Nat) : Nat → List Rat → Nat
+def argmaxAux (best : K) (bi : Nat) : Nat → List K → Nat
   | _, [] => bi
   | i, a :: l => if a > best then argmaxAux a i (i + 1) l else argmaxAux best bi (i + 1) l
 
 /-- `np.argmax`: index of the first maximal entry -/
-def argmax : List Rat → Nat
+def argmax : List K → Nat
   | [] => 0
   | a :: l => argmaxAux a 0 1 l
 
-def nrm (sq : Rat → Rat) (u : V3) : Rat := sq (norm2 u)
-def normalize (sq : Rat → Rat) (u : V3) : V3 := smul (1 / nrm sq u) u
+def nrm (sq : K → K) (u : V3 K) : K := sq (norm2 u)
+def normalize (sq : K → K) (u : V3 K) : V3 K := smul (((1 : Nat) : K) / nrm sq u) u
 
 /-- all five geometry fields of a grid -/
-structure Out where
-  fa : List Rat   -- face_areas
-  fc : List V3    -- face_centers
-  fn : List V3    -- face_normals
-  cv : List Rat   -- cell_volumes
-  cc : List V3    -- cell_centers
+structure Out (K : Type) where
+  fa : List K   -- face_areas
+  fc : List (V3 K)    -- face_centers
+  fn : List (V3 K)    -- face_normals
+  cv : List K   -- cell_volumes
+  cc : List (V3 K)    -- cell_centers
 deriving DecidableEq, Repr
 
 /-- what the property says happens to the fields under the motion -/
-def Out.move (M : Motion) (o : Out) : Out :=
+def Out.move (M : Motion K) (o : Out K) : Out K :=
   { fa := o.fa, fc := o.fc.map (act M), fn := o.fn.map (rot M), cv := o.cv, cc := o.cc.map (act M) }
 
 /-! ### map_geometry.compute_tangent / compute_normal -/
 
-def subFrom (m p : V3) : V3 := sub p m
+def subFrom (m p : V3 K) : V3 K := sub p m
 
 /-- vectors from the centre of the point cloud -/
-def centred (pts : List V3) : List V3 := pts.map (subFrom (mean pts))
+def centred (pts : List (V3 K)) : List (V3 K) := pts.map (subFrom (mean pts))
 
 /-- `compute_tangent(pts)`: the point farthest from the mean, normalised -/
-def tangent (sq : Rat → Rat) (pts : List V3) : V3 :=
+def tangent (sq : K → K) (pts : List (V3 K)) : V3 K :=
   let d := centred pts
   normalize sq (d.getD (argmax (d.map norm2)) zero)
 
 /-- index of the longest centred vector (`v1_ind`) -/
-def pnI1 (sq : Rat → Rat) (pts : List V3) : Nat := argmax ((centred pts).map (nrm sq))
-def pnV1 (sq : Rat → Rat) (pts : List V3) : V3 := (centred pts).getD (pnI1 sq pts) zero
+def pnI1 (sq : K → K) (pts : List (V3 K)) : Nat := argmax ((centred pts).map (nrm sq))
+def pnV1 (sq : K → K) (pts : List (V3 K)) : V3 K := (centred pts).getD (pnI1 sq pts) zero
 /-- cross products of the longest vector with all vectors -/
-def pnCross (sq : Rat → Rat) (pts : List V3) : List V3 := (centred pts).map (cross (pnV1 sq pts))
-def pnIc (sq : Rat → Rat) (pts : List V3) : Nat := argmax ((pnCross sq pts).map (nrm sq))
+def pnCross (sq : K → K) (pts : List (V3 K)) : List (V3 K) := (centred pts).map (cross (pnV1 sq pts))
+def pnIc (sq : K → K) (pts : List (V3 K)) : Nat := argmax ((pnCross sq pts).map (nrm sq))
 /-- the un-normalised normal `cross[:, cross_ind]` -/
-def pnRaw (sq : Rat → Rat) (pts : List V3) : V3 := (pnCross sq pts).getD (pnIc sq pts) zero
+def pnRaw (sq : K → K) (pts : List (V3 K)) : V3 K := (pnCross sq pts).getD (pnIc sq pts) zero
 /-- `compute_normal(pts)` -/
-def planeNormal (sq : Rat → Rat) (pts : List V3) : V3 := normalize sq (pnRaw sq pts)
+def planeNormal (sq : K → K) (pts : List (V3 K)) : V3 K := normalize sq (pnRaw sq pts)
 
-def rabs (q : Rat) : Rat := if q < 0 then -q else q
+def rabs (q : K) : K := if q < ((0 : Nat) : K) then -q else q
 
 /-- the collinearity test of `compute_normal` (`np.allclose(normal, 0, atol=tol * nrm_scaling)` → RuntimeError).
     It is component-wise, hence NOT rotation invariant; it is reproduced for the correspondence only. -/
-def collinearErr (sq : Rat → Rat) (pts : List V3) : Bool :=
+def collinearErr (sq : K → K) (pts : List (V3 K)) : Bool :=
   let n := pnRaw sq pts
-  let n1 := ((centred pts).map (nrm sq)).getD (pnI1 sq pts) 0
+  let n1 := ((centred pts).map (nrm sq)).getD (pnI1 sq pts) ((0 : Nat) : K)
   let s := n1 * n1                                    -- nrm_scaling = nrm[v1_ind] ** 2
-  let atol := (1 / 100000 : Rat) * s
+  let atol := (((1 : Nat) : K) / ((100000 : Nat) : K)) * s
   decide (rabs n.x ≤ atol) && decide (rabs n.y ≤ atol) && decide (rabs n.z ≤ atol)
 
 /-! ### 1-D grids (`_compute_geometry_1d`) -/
 
 /-- one (face, cell) incidence of a 1-D grid: face id, sign in `cell_faces`, face centre (= node) -/
-structure Inc1 where
+structure Inc1 (K : Type) where
   face : Nat
   sgn : Int
-  x : V3
+  x : V3 K
 deriving DecidableEq, Repr
 
-structure Grid1 where
-  nodes : List V3               -- g.nodes
-  faces : List V3               -- g.nodes[:, face_nodes.indices]
-  cells : List (Inc1 × Inc1)    -- cell_faces.indices[::2], [1::2] with their signs, per cell
+structure Grid1 (K : Type) where
+  nodes : List (V3 K)               -- g.nodes
+  faces : List (V3 K)               -- g.nodes[:, face_nodes.indices]
+  cells : List (Inc1 K × Inc1 K)    -- cell_faces.indices[::2], [1::2] with their signs, per cell
 
-def Inc1.move (M : Motion) (e : Inc1) : Inc1 := { e with x := act M e.x }
-def Grid1.move (M : Motion) (g : Grid1) : Grid1 :=
+def Inc1.move (M : Motion K) (e : Inc1 K) : Inc1 K := { e with x := act M e.x }
+def Grid1.move (M : Motion K) (g : Grid1 K) : Grid1 K :=
   { nodes := g.nodes.map (act M), faces := g.faces.map (act M),
     cells := g.cells.map fun c => (c.1.move M, c.2.move M) }
 
-def cellVol1 (sq : Rat → Rat) (c : Inc1 × Inc1) : Rat := nrm sq (sub c.1.x c.2.x)
-def cellCen1 (c : Inc1 × Inc1) : V3 := smul (1 / 2) (add c.1.x c.2.x)
+def cellVol1 (sq : K → K) (c : Inc1 K × Inc1 K) : K := nrm sq (sub c.1.x c.2.x)
+def cellCen1 (c : Inc1 K × Inc1 K) : V3 K := smul (((1 : Nat) : K) / ((2 : Nat) : K)) (add c.1.x c.2.x)
 
 /-- the (face, cell) listing in csc order, each with the centre of its cell -/
-def incs1 (cells : List (Inc1 × Inc1)) : List (Inc1 × V3) :=
+def incs1 (cells : List (Inc1 K × Inc1 K)) : List (Inc1 K × V3 K) :=
   match cells with
   | [] => []
   | c :: l => (c.1, cellCen1 c) :: (c.2, cellCen1 c) :: incs1 l
 
 /-- first incidence of face `f` (`np.unique(fi, return_index=True)`) -/
-def firstInc1 (f : Nat) : List (Inc1 × V3) → Option (Inc1 × V3)
+def firstInc1 (f : Nat) : List (Inc1 K × V3 K) → Option (Inc1 K × V3 K)
   | [] => none
   | e :: l => if e.1.face = f then some e else firstInc1 f l
 
 /-- the flip decision: prolong the vector from cell centre to face centre by 0.001 of its length along the
     normal; flip if that made it shorter although the sign is +1, or longer although the sign is −1 -/
-def flip1 (sq : Rat → Rat) (t : V3) (sgn : Int) (fc cc : V3) : Bool :=
+def flip1 (sq : K → K) (t : V3 K) (sgn : Int) (fc cc : V3 K) : Bool :=
   let v := sub fc cc
-  let vn := add v (smul (nrm sq v * (1 / 1000)) t)
+  let vn := add v (smul (nrm sq v * (((1 : Nat) : K) / ((1000 : Nat) : K))) t)
   (decide (nrm sq v > nrm sq vn) && decide (sgn > 0)) || (decide (nrm sq v < nrm sq vn) && decide (sgn < 0))
 
-def faceNormal1 (sq : Rat → Rat) (t : V3) (incs : List (Inc1 × V3)) (f : Nat) : V3 :=
+def faceNormal1 (sq : K → K) (t : V3 K) (incs : List (Inc1 K × V3 K)) (f : Nat) : V3 K :=
   match firstInc1 f incs with
   | none => t
   | some e => if flip1 sq t e.1.sgn e.1.x e.2 then neg t else t
 
-def geom1 (sq : Rat → Rat) (g : Grid1) : Out :=
+def geom1 (sq : K → K) (g : Grid1 K) : Out K :=
   let t := tangent sq g.nodes
-  { fa := g.faces.map (fun _ => 1),
+  { fa := g.faces.map (fun _ => ((1 : Nat) : K)),
     fc := g.faces,
     fn := (List.range g.faces.length).map (faceNormal1 sq t (incs1 g.cells)),
     cv := g.cells.map (cellVol1 sq),
@@ -207,102 +212,102 @@ def geom1 (sq : Rat → Rat) (g : Grid1) : Out :=
 
 /-- one (face, cell) incidence of a 2-D grid: face id, sign in `cell_faces`, ids and coordinates of the
     start and end node of the face (order of `face_nodes.indices`) -/
-structure Inc2 where
+structure Inc2 (K : Type) where
   face : Nat
   sgn : Int
   n0 : Nat
   n1 : Nat
-  a : V3
-  b : V3
+  a : V3 K
+  b : V3 K
 deriving DecidableEq, Repr
 
-structure Grid2 where
-  nodes : List V3            -- g.nodes (used by the plane fitting fallback)
-  faces : List (V3 × V3)     -- start and end node of every face
-  cells : List (List Inc2)   -- the columns of cell_faces
+structure Grid2 (K : Type) where
+  nodes : List (V3 K)            -- g.nodes (used by the plane fitting fallback)
+  faces : List (V3 K × V3 K)     -- start and end node of every face
+  cells : List (List (Inc2 K))   -- the columns of cell_faces
 
-def Inc2.move (M : Motion) (e : Inc2) : Inc2 := { e with a := act M e.a, b := act M e.b }
-def Grid2.move (M : Motion) (g : Grid2) : Grid2 :=
+def Inc2.move (M : Motion K) (e : Inc2 K) : Inc2 K := { e with a := act M e.a, b := act M e.b }
+def Grid2.move (M : Motion K) (g : Grid2 K) : Grid2 K :=
   { nodes := g.nodes.map (act M), faces := g.faces.map (fun f => (act M f.1, act M f.2)),
     cells := g.cells.map (fun c => c.map (Inc2.move M)) }
 
 /-- `tangent = nodes @ fn_orient`: end − start -/
-def tang (e : Inc2) : V3 := sub e.b e.a
+def tang (e : Inc2 K) : V3 K := sub e.b e.a
 /-- `face_centers = 0.5 * nodes * |fn_orient|` -/
-def fcen (e : Inc2) : V3 := smul (1 / 2) (add e.a e.b)
+def fcen (e : Inc2 K) : V3 K := smul (((1 : Nat) : K) / ((2 : Nat) : K)) (add e.a e.b)
 /-- temporary cell centre: average of the face centres of the cell -/
-def tcc (c : List Inc2) : V3 := smul (1 / (c.length : Rat)) (vsum (c.map fcen))
+def tcc (c : List (Inc2 K)) : V3 K := smul (((1 : Nat) : K) / (c.length : K)) (vsum (c.map fcen))
 /-- `subsimplex_heights` (`t` = temporary centre of the cell) -/
-def height (t : V3) (e : Inc2) : V3 := sub (fcen e) t
+def height (t : V3 K) (e : Inc2 K) : V3 K := sub (fcen e) t
 /-- `subsimplex_normals = 0.5 * cross(heights, cf_orient * tangent)` -/
-def ssn (t : V3) (e : Inc2) : V3 := smul (1 / 2) (cross (height t e) (smul (e.sgn : Rat) (tang e)))
-def subCentroid (t : V3) (e : Inc2) : V3 := smul (1 / 3) (add t (smul 2 (fcen e)))
+def ssn (t : V3 K) (e : Inc2 K) : V3 K := smul (((1 : Nat) : K) / ((2 : Nat) : K)) (cross (height t e) (smul (e.sgn : K) (tang e)))
+def subCentroid (t : V3 K) (e : Inc2 K) : V3 K := smul (((1 : Nat) : K) / ((3 : Nat) : K)) (add t (smul ((2 : Nat) : K) (fcen e)))
 
 /-- entry `n` of the column of `fn_orient @ cell_faces` belonging to the cell -/
-def nodeBalance (c : List Inc2) (n : Nat) : Int :=
+def nodeBalance (c : List (Inc2 K)) (n : Nat) : Int :=
   match c with
   | [] => 0
   | e :: l => e.sgn * ((if e.n1 = n then 1 else 0) - (if e.n0 = n then 1 else 0)) + nodeBalance l n
 
-def cellClosed (c : List Inc2) : Bool :=
+def cellClosed (c : List (Inc2 K)) : Bool :=
   c.all fun e => decide (nodeBalance c e.n0 = 0) && decide (nodeBalance c e.n1 = 0)
 
 /-- orientation check 1/3: every cell is a closed signed node loop -/
-def check1 (g : Grid2) : Bool := g.cells.all cellClosed
+def check1 (g : Grid2 K) : Bool := g.cells.all cellClosed
 
-def cellNsum (c : List Inc2) : V3 := vsum (c.map (ssn (tcc c)))
+def cellNsum (c : List (Inc2 K)) : V3 K := vsum (c.map (ssn (tcc c)))
 /-- `subsimplex_normals.sum(axis=1)` -/
-def nsum (g : Grid2) : V3 := vsum (g.cells.map cellNsum)
-def faceArea2 (sq : Rat → Rat) (f : V3 × V3) : Rat := nrm sq (sub f.2 f.1)
-def meanArea (sq : Rat → Rat) (g : Grid2) : Rat := rsum (g.faces.map (faceArea2 sq)) / (g.faces.length : Rat)
+def nsum (g : Grid2 K) : V3 K := vsum (g.cells.map cellNsum)
+def faceArea2 (sq : K → K) (f : V3 K × V3 K) : K := nrm sq (sub f.2 f.1)
+def meanArea (sq : K → K) (g : Grid2 K) : K := rsum (g.faces.map (faceArea2 sq)) / (g.faces.length : K)
 
 /-- orientation check 2/3 fails: `len_normal < 1e-5 * mean(face_areas)**2` -/
-def check2Fails (sq : Rat → Rat) (g : Grid2) : Bool :=
-  decide (nrm sq (nsum g) < (1 / 100000 : Rat) * (meanArea sq g * meanArea sq g))
+def check2Fails (sq : K → K) (g : Grid2 K) : Bool :=
+  decide (nrm sq (nsum g) < (((1 : Nat) : K) / ((100000 : Nat) : K)) * (meanArea sq g * meanArea sq g))
 
 /-- does `compute_normal(is_oriented)` use the sub-simplex normals? -/
-def normalOriented (sq : Rat → Rat) (g : Grid2) : Bool := check1 g && !check2Fails sq g
+def normalOriented (sq : K → K) (g : Grid2 K) : Bool := check1 g && !check2Fails sq g
 
 /-- unit normal of the plane of the grid -/
-def nhat (sq : Rat → Rat) (g : Grid2) : V3 :=
+def nhat (sq : K → K) (g : Grid2 K) : V3 K :=
   if normalOriented sq g then normalize sq (nsum g) else planeNormal sq g.nodes
 
 /-- signed sub-simplex volumes and cell volumes of the oriented path (`nh` = plane normal) -/
-def ssvO (nh t : V3) (e : Inc2) : Rat := dot nh (ssn t e)
-def volO (nh : V3) (c : List Inc2) : Rat := rsum (c.map (ssvO nh (tcc c)))
+def ssvO (nh t : V3 K) (e : Inc2 K) : K := dot nh (ssn t e)
+def volO (nh : V3 K) (c : List (Inc2 K)) : K := rsum (c.map (ssvO nh (tcc c)))
 
 /-- the oriented path is used to the end: check 1 passed (the outer `is_oriented`; the result of check 2 is
     local to the nested function in the code) and no negative volume appeared (check 3/3) -/
-def volOriented (nh : V3) (g : Grid2) : Bool :=
-  check1 g && g.cells.all fun c => !decide (volO nh c < 0)
+def volOriented (nh : V3 K) (g : Grid2 K) : Bool :=
+  check1 g && g.cells.all fun c => !decide (volO nh c < ((0 : Nat) : K))
 
 /-- sub-simplex volumes actually used (`vo` = oriented path) -/
-def ssv (sq : Rat → Rat) (vo : Bool) (nh t : V3) (e : Inc2) : Rat :=
+def ssv (sq : K → K) (vo : Bool) (nh t : V3 K) (e : Inc2 K) : K :=
   if vo then ssvO nh t e else nrm sq (ssn t e)
-def vol2 (sq : Rat → Rat) (vo : Bool) (nh : V3) (c : List Inc2) : Rat := rsum (c.map (ssv sq vo nh (tcc c)))
-def wcen (sq : Rat → Rat) (vo : Bool) (nh t : V3) (e : Inc2) : V3 := smul (ssv sq vo nh t e) (subCentroid t e)
-def cen2 (sq : Rat → Rat) (vo : Bool) (nh : V3) (c : List Inc2) : V3 :=
-  smul (1 / vol2 sq vo nh c) (vsum (c.map (wcen sq vo nh (tcc c))))
+def vol2 (sq : K → K) (vo : Bool) (nh : V3 K) (c : List (Inc2 K)) : K := rsum (c.map (ssv sq vo nh (tcc c)))
+def wcen (sq : K → K) (vo : Bool) (nh t : V3 K) (e : Inc2 K) : V3 K := smul (ssv sq vo nh t e) (subCentroid t e)
+def cen2 (sq : K → K) (vo : Bool) (nh : V3 K) (c : List (Inc2 K)) : V3 K :=
+  smul (((1 : Nat) : K) / vol2 sq vo nh c) (vsum (c.map (wcen sq vo nh (tcc c))))
 
 /-- fallback: this side of the face asks for a flip of the normal -/
-def flipInc (nh t : V3) (e : Inc2) : Bool :=
-  decide ((e.sgn : Rat) * dot (height t e) (cross (tang e) nh) < 0)
+def flipInc (nh t : V3 K) (e : Inc2 K) : Bool :=
+  decide ((e.sgn : K) * dot (height t e) (cross (tang e) nh) < ((0 : Nat) : K))
 
-def cellFlips (nh : V3) (c : List Inc2) : List Nat := (c.filter (flipInc nh (tcc c))).map (·.face)
+def cellFlips (nh : V3 K) (c : List (Inc2 K)) : List Nat := (c.filter (flipInc nh (tcc c))).map (·.face)
 
 /-- faces whose normal is flipped: `np.bincount(faceno, weights=flip).astype(bool)` -/
-def flips (nh : V3) : List (List Inc2) → List Nat
+def flips (nh : V3 K) : List (List (Inc2 K)) → List Nat
   | [] => []
   | c :: l => cellFlips nh c ++ flips nh l
 
-def faceNormal2 (nh : V3) (fl : List Nat) (p : Nat × (V3 × V3)) : V3 :=
+def faceNormal2 (nh : V3 K) (fl : List Nat) (p : Nat × (V3 K × V3 K)) : V3 K :=
   if fl.contains p.1 then neg (cross (sub p.2.2 p.2.1) nh) else cross (sub p.2.2 p.2.1) nh
 
-def faceCen2 (f : V3 × V3) : V3 := smul (1 / 2) (add f.1 f.2)
+def faceCen2 (f : V3 K × V3 K) : V3 K := smul (((1 : Nat) : K) / ((2 : Nat) : K)) (add f.1 f.2)
 
 def zipIdx {α : Type} (l : List α) : List (Nat × α) := (List.range l.length).zip l
 
-def geom2 (sq : Rat → Rat) (g : Grid2) : Out :=
+def geom2 (sq : K → K) (g : Grid2 K) : Out K :=
   let nh := nhat sq g
   let vo := volOriented nh g
   let fl := if vo then [] else flips nh g.cells
@@ -313,116 +318,116 @@ def geom2 (sq : Rat → Rat) (g : Grid2) : Out :=
     cc := g.cells.map (cen2 sq vo nh) }
 
 /-- `compute_normal` raises RuntimeError (points collinear up to the tolerance) -/
-def geom2Err (sq : Rat → Rat) (g : Grid2) : Bool := !normalOriented sq g && collinearErr sq g.nodes
+def geom2Err (sq : K → K) (g : Grid2 K) : Bool := !normalOriented sq g && collinearErr sq g.nodes
 
 /-! #### a single polygonal cell given by its vertex loop (oriented path) -/
 
 /-- the edges of a polygon `v₀ v₁ … v_{m-1}` traversed in the order given -/
-def polyEdges (vs : List V3) : List (V3 × V3) :=
+def polyEdges (vs : List (V3 K)) : List (V3 K × V3 K) :=
   match vs with
   | [] => []
   | p :: l => vs.zip (l ++ [p])
 
-def polyInc (m : Nat) (p : Nat × (V3 × V3)) : Inc2 := ⟨p.1, 1, p.1, (p.1 + 1) % m, p.2.1, p.2.2⟩
+def polyInc (m : Nat) (p : Nat × (V3 K × V3 K)) : Inc2 K := ⟨p.1, 1, p.1, (p.1 + 1) % m, p.2.1, p.2.2⟩
 /-- its incidences: all signs +1, node ids = positions in the loop -/
-def polyIncs (vs : List V3) : List Inc2 := (zipIdx (polyEdges vs)).map (polyInc vs.length)
+def polyIncs (vs : List (V3 K)) : List (Inc2 K) := (zipIdx (polyEdges vs)).map (polyInc vs.length)
 
 /-- the one-cell grid of a polygon -/
-def polyGrid (vs : List V3) : Grid2 :=
+def polyGrid (vs : List (V3 K)) : Grid2 K :=
   { nodes := vs, faces := polyEdges vs, cells := [polyIncs vs] }
 
 /-! ### 3-D grids (`_compute_geometry_3d`) -/
 
 /-- cyclic successor of every node of a face (`next_node`) -/
-def nextOf (ps : List V3) : List V3 :=
+def nextOf (ps : List (V3 K)) : List (V3 K) :=
   match ps with
   | [] => []
   | p :: l => l ++ [p]
 
 /-- the edges of the node loop of a face: (node, next node) -/
-def loopEdges (ps : List V3) : List (V3 × V3) := ps.zip (nextOf ps)
+def loopEdges (ps : List (V3 K)) : List (V3 K × V3 K) := ps.zip (nextOf ps)
 
 /-- sub-triangle (edge `e = (p, q)`, temporary face centre `c`): area-weighted normal and centroid -/
-def subNormal (c : V3) (e : V3 × V3) : V3 := smul (1 / 2) (cross (sub e.2 e.1) (sub c e.1))
-def subCentroid3 (c : V3) (e : V3 × V3) : V3 := smul (1 / 3) (add (add e.1 e.2) c)
+def subNormal (c : V3 K) (e : V3 K × V3 K) : V3 K := smul (((1 : Nat) : K) / ((2 : Nat) : K)) (cross (sub e.2 e.1) (sub c e.1))
+def subCentroid3 (c : V3 K) (e : V3 K × V3 K) : V3 K := smul (((1 : Nat) : K) / ((3 : Nat) : K)) (add (add e.1 e.2) c)
 
-def subNormals (ps : List V3) : List V3 := (loopEdges ps).map (subNormal (mean ps))
+def subNormals (ps : List (V3 K)) : List (V3 K) := (loopEdges ps).map (subNormal (mean ps))
 /-- face normal = sum of the sub-normals -/
-def faceNormal3 (ps : List V3) : V3 := vsum (subNormals ps)
+def faceNormal3 (ps : List (V3 K)) : V3 K := vsum (subNormals ps)
 
 /-- (sub-area, sub-centroid) of one sub-triangle -/
-def subW (sq : Rat → Rat) (c : V3) (e : V3 × V3) : Rat × V3 := (nrm sq (subNormal c e), subCentroid3 c e)
-def subTris (sq : Rat → Rat) (ps : List V3) : List (Rat × V3) := (loopEdges ps).map (subW sq (mean ps))
+def subW (sq : K → K) (c : V3 K) (e : V3 K × V3 K) : K × V3 K := (nrm sq (subNormal c e), subCentroid3 c e)
+def subTris (sq : K → K) (ps : List (V3 K)) : List (K × V3 K) := (loopEdges ps).map (subW sq (mean ps))
 /-- face area = sum of the sub-areas -/
-def faceArea3 (sq : Rat → Rat) (ps : List V3) : Rat := rsum ((subTris sq ps).map (·.1))
+def faceArea3 (sq : K → K) (ps : List (V3 K)) : K := rsum ((subTris sq ps).map (·.1))
 /-- `face_centers = sub_areas * sub_centroids * edge_2_face / face_areas` -/
-def faceCentre3 (sq : Rat → Rat) (ps : List V3) : V3 := wavg (subTris sq ps)
+def faceCentre3 (sq : K → K) (ps : List (V3 K)) : V3 K := wavg (subTris sq ps)
 
-def sgnRat (q : Rat) : Rat := if q > 0 then 1 else if q < 0 then -1 else 0
+def sgnRat (q : K) : K := if q > ((0 : Nat) : K) then ((1 : Nat) : K) else if q < ((0 : Nat) : K) then -((1 : Nat) : K) else ((0 : Nat) : K)
 
 /-- one sub-tetrahedron base as seen from a cell: centre of its face, centroid of the sub-triangle,
     outward area-weighted normal (`sub_normals * orientation * sub_normals_sign`) -/
-structure Edge3 where
-  fc : V3
-  sc : V3
-  outer : V3
+structure Edge3 (K : Type) where
+  fc : V3 K
+  sc : V3 K
+  outer : V3 K
 deriving DecidableEq, Repr
 
-def mkEdge (fc fnm c : V3) (o : Int) (e : V3 × V3) : Edge3 :=
-  ⟨fc, subCentroid3 c e, smul ((o : Rat) * sgnRat (dot (subNormal c e) fnm)) (subNormal c e)⟩
+def mkEdge (fc fnm c : V3 K) (o : Int) (e : V3 K × V3 K) : Edge3 K :=
+  ⟨fc, subCentroid3 c e, smul ((o : K) * sgnRat (dot (subNormal c e) fnm)) (subNormal c e)⟩
 
-def faceEdges (sq : Rat → Rat) (f : Int × List V3) : List Edge3 :=
+def faceEdges (sq : K → K) (f : Int × List (V3 K)) : List (Edge3 K) :=
   (loopEdges f.2).map (mkEdge (faceCentre3 sq f.2) (faceNormal3 f.2) (mean f.2) f.1)
 
 /-- a cell: its faces with their sign in `cell_faces` and node loop -/
-abbrev Cell3 := List (Int × List V3)
+abbrev Cell3 K := List (Int × List (V3 K))
 
-def cellEdges (sq : Rat → Rat) (c : Cell3) : List Edge3 :=
+def cellEdges (sq : K → K) (c : Cell3 K) : List (Edge3 K) :=
   match c with
   | [] => []
   | f :: l => faceEdges sq f ++ cellEdges sq l
 
 /-- temporary cell centre: mean over the edges of the cell of the centres of their faces -/
-def tcc3 (es : List Edge3) : V3 := smul (1 / (es.length : Rat)) (vsum (es.map (·.fc)))
-def dist3 (t : V3) (e : Edge3) : V3 := sub e.sc t
-def tetVol (t : V3) (e : Edge3) : Rat := dot (dist3 t e) e.outer / 3
-def vol3 (es : List Edge3) : Rat := rsum (es.map (tetVol (tcc3 es)))
-def wtet (t : V3) (e : Edge3) : V3 := smul (tetVol t e) (smul (3 / 4) (dist3 t e))
-def cen3 (es : List Edge3) : V3 :=
-  add (tcc3 es) (smul (1 / vol3 es) (vsum (es.map (wtet (tcc3 es)))))
+def tcc3 (es : List (Edge3 K)) : V3 K := smul (((1 : Nat) : K) / (es.length : K)) (vsum (es.map (·.fc)))
+def dist3 (t : V3 K) (e : Edge3 K) : V3 K := sub e.sc t
+def tetVol (t : V3 K) (e : Edge3 K) : K := dot (dist3 t e) e.outer / ((3 : Nat) : K)
+def vol3 (es : List (Edge3 K)) : K := rsum (es.map (tetVol (tcc3 es)))
+def wtet (t : V3 K) (e : Edge3 K) : V3 K := smul (tetVol t e) (smul (((3 : Nat) : K) / ((4 : Nat) : K)) (dist3 t e))
+def cen3 (es : List (Edge3 K)) : V3 K :=
+  add (tcc3 es) (smul (((1 : Nat) : K) / vol3 es) (vsum (es.map (wtet (tcc3 es)))))
 
-def tetBad (t : V3) (e : Edge3) : Bool := !decide (tetVol t e > -(1 / 1000000000000 : Rat))
+def tetBad (t : V3 K) (e : Edge3 K) : Bool := !decide (tetVol t e > -(((1 : Nat) : K) / ((1000000000000 : Nat) : K)))
 /-- `not np.all(tet_volumes > -1e-12)` → ValueError -/
-def negTet (es : List Edge3) : Bool := es.any (tetBad (tcc3 es))
+def negTet (es : List (Edge3 K)) : Bool := es.any (tetBad (tcc3 es))
 
-structure Grid3 where
-  faces : List (List V3)
-  cells : List Cell3
+structure Grid3 (K : Type) where
+  faces : List (List (V3 K))
+  cells : List (Cell3 K)
 
-def face3Move (M : Motion) (f : Int × List V3) : Int × List V3 := (f.1, f.2.map (act M))
-def Cell3.move (M : Motion) (c : Cell3) : Cell3 := c.map (face3Move M)
-def Grid3.move (M : Motion) (g : Grid3) : Grid3 :=
+def face3Move (M : Motion K) (f : Int × List (V3 K)) : Int × List (V3 K) := (f.1, f.2.map (act M))
+def Cell3.move (M : Motion K) (c : Cell3 K) : Cell3 K := c.map (face3Move M)
+def Grid3.move (M : Motion K) (g : Grid3 K) : Grid3 K :=
   { faces := g.faces.map (fun ps => ps.map (act M)), cells := g.cells.map (Cell3.move M) }
 
-def cellVol3 (sq : Rat → Rat) (c : Cell3) : Rat := vol3 (cellEdges sq c)
-def cellCen3 (sq : Rat → Rat) (c : Cell3) : V3 := cen3 (cellEdges sq c)
+def cellVol3 (sq : K → K) (c : Cell3 K) : K := vol3 (cellEdges sq c)
+def cellCen3 (sq : K → K) (c : Cell3 K) : V3 K := cen3 (cellEdges sq c)
 
-def geom3 (sq : Rat → Rat) (g : Grid3) : Out :=
+def geom3 (sq : K → K) (g : Grid3 K) : Out K :=
   { fa := g.faces.map (faceArea3 sq),
     fc := g.faces.map (faceCentre3 sq),
     fn := g.faces.map faceNormal3,
     cv := g.cells.map (cellVol3 sq),
     cc := g.cells.map (cellCen3 sq) }
 
-def geom3Err (sq : Rat → Rat) (g : Grid3) : Bool := g.cells.any fun c => negTet (cellEdges sq c)
+def geom3Err (sq : K → K) (g : Grid3 K) : Bool := g.cells.any fun c => negTet (cellEdges sq c)
 
 /-! ### elementary quantities named in the property theorems -/
 
 /-- area-weighted normal of the triangle `a b c` (½ (b−a) × (c−a)) and its squared area -/
-def triNormal (a b c : V3) : V3 := smul (1 / 2) (cross (sub b a) (sub c a))
-def triArea2 (a b c : V3) : Rat := norm2 (triNormal a b c)
+def triNormal (a b c : V3 K) : V3 K := smul (((1 : Nat) : K) / ((2 : Nat) : K)) (cross (sub b a) (sub c a))
+def triArea2 (a b c : V3 K) : K := norm2 (triNormal a b c)
 /-- signed volume of the tetrahedron with apex `a` over the triangle `b c d` (triple product / 6) -/
-def tetVolume (a b c d : V3) : Rat := dot (sub a b) (cross (sub c b) (sub d b)) / 6
+def tetVolume (a b c d : V3 K) : K := dot (sub a b) (cross (sub c b) (sub d b)) / ((6 : Nat) : K)
 
 /-! ### the square root used by the driver -/
 
